@@ -48,6 +48,29 @@ theorem codec_der (n : ℤ) (hn : 2 ≤ n) (hbig : n ≤ 256 ^ 126) : Codec encD
   injection h with h; subst h
   exact ⟨s.toNat, hd, Or.inl (Int.toNat_of_nonneg (by omega))⟩
 
+/-- exact read-back of the plain raw-string encoding -/
+theorem string_roundtrip (n r s : ℤ) (hn : 2 ≤ n) (r0 : 0 ≤ r) (r1 : r < n) (s0 : 0 ≤ s) (s1 : s < n) (sig : Bytes)
+    (h : encString r s n = .ok sig) : Util.sigdecodeString sig n.toNat = .ok (r.toNat, s.toNat) := by
+  obtain ⟨e, he, -, -, hd⟩ := C12.sigdecode_sigencode_string n.toNat r.toNat s.toNat (by omega)
+    (toNat_lt r0 r1) (toNat_lt s0 s1)
+  have : encString r s n = Util.sigencodeString r.toNat s.toNat n.toNat := by
+    unfold encString encInt; rw [if_neg (by omega)]
+  rw [this, he] at h
+  injection h with h; subst h; exact hd
+
+/-- exact read-back of the plain DER encoding -/
+theorem der_roundtrip (n r s : ℤ) (hn : 2 ≤ n) (hbig : n ≤ 256 ^ 126) (r0 : 0 ≤ r) (r1 : r < n) (s0 : 0 ≤ s) (s1 : s < n)
+    (sig : Bytes) (h : encDer r s n = .ok sig) : Util.sigdecodeDer sig n.toNat = .ok (r.toNat, s.toNat) := by
+  have hb : n.toNat ≤ 256 ^ 126 := by
+    have : ((n.toNat : ℕ) : ℤ) ≤ ((256 ^ 126 : ℕ) : ℤ) := by
+      rw [Int.toNat_of_nonneg (by omega)]; exact_mod_cast hbig
+    exact_mod_cast this
+  obtain ⟨e, he, hd⟩ := C12.sigdecode_sigencode_der n.toNat r.toNat s.toNat (by omega) hb (toNat_lt r0 r1) (toNat_lt s0 s1)
+  have : encDer r s n = Util.sigencodeDer r.toNat s.toNat n.toNat := by
+    unfold encDer encInt; rw [if_neg (by omega)]
+  rw [this, he] at h
+  injection h with h; subst h; exact hd
+
 /-- the reflected `s` is again in `[1, n−1]` -/
 private theorem min_range {s n : ℤ} (s0 : 1 ≤ s) (s1 : s < n) : 1 ≤ min s (n - s) ∧ min s (n - s) < n := by omega
 
